@@ -18,9 +18,13 @@ def main(argv):
     # safety with the repair switches of the known findings on, racy environment
     safe = {'Fix <- CodeFix': 'Fix <- AllFix'}
     if thorough:
-        safe.update({'MaxDup = 0': 'MaxDup = 1', 'Fifo = TRUE': 'Fifo = FALSE', 'MaxTip = 1': 'MaxTip = 2'})
+        safe.update({'MaxDup = 0': 'MaxDup = 1', 'Fifo = TRUE': 'Fifo = FALSE'})     # duplicates and reordering (0.5 M distinct states)
     models.append(('safety-racy-repaired', cs.model(chk, 'invariants, racy environment, known findings repaired', safe,
                                                    timeout=2400 if thorough else 600, heap='28g' if thorough else '16g')))
+    if thorough:
+        # two tip changes with duplicates, FIFO (two tip changes together with reordering did not finish in 15 min)
+        models.append(('safety-two-tips', cs.model(chk, 'invariants, two tip changes with duplicates, known findings repaired',
+                                                   {'Fix <- CodeFix': 'Fix <- AllFix', 'MaxDup = 0': 'MaxDup = 1', 'MaxTip = 1': 'MaxTip = 2'}, timeout=2400, heap='28g')))
     scripts = []
     for name, r in models:
         if r.violated:
